@@ -338,6 +338,20 @@ fn mean_sweep<F: Fl>(run: &Arc<Run>, seed: u64, thorough: bool) {
             }
         }
     }
+    // few, widely dispersed positive observations: the reciprocal-space interval straddles zero and
+    // the back-transform is not monotone there; whatever is returned must be an error or well formed
+    for data in [vec![1.0, 100.0], vec![3.0, 5.0], vec![0.01, 1.0, 1.0, 1.0, 1.0, 1.0, 1.0, 1.0, 1.0, 1.0], vec![0.001, 1000.0, 3.0], vec![1e-3, 1.0, 2.0, 3.0, 4.0, 5.0, 6.0, 7.0]] {
+        let d: Vec<F> = data.iter().map(|x| F::of(*x)).collect();
+        for kind in KINDS {
+            for level in [0.5, 0.8, 0.9, 0.99, 0.9999] {
+                let c = conf(kind, level);
+                let inp = || json!({"data": jdata(&d), "kind": kind.name(), "level": level});
+                verdict(&format!("Harmonic::ci<{}>", F::TY), "harmonic-reciprocal-CI-straddles-zero", &Want::OkOrAnyErr, &call(|| Harmonic::<F>::ci(c, &d)).map(|i| F::obs(&i)), &inp, &mut l);
+                verdict(&format!("Harmonic::from_iter+ci_mean<{}>", F::TY), "harmonic-reciprocal-CI-straddles-zero", &Want::OkOrAnyErr, &call(|| Harmonic::<F>::from_iter(&d)?.ci_mean(c)).map(|i| F::obs(&i)), &inp, &mut l);
+                verdict(&format!("Geometric::ci<{}>", F::TY), "harmonic-reciprocal-CI-straddles-zero", &Want::OkOrAnyErr, &call(|| Geometric::<F>::ci(c, &d)).map(|i| F::obs(&i)), &inp, &mut l);
+            }
+        }
+    }
     // empty states queried directly
     for kind in KINDS {
         let c = conf(kind, 0.5);
@@ -647,6 +661,7 @@ pub fn run(run: &Arc<Run>) {
         "class:tiny-magnitudes",
         "class:too-few-observations-on-a-side",
         "class:both-samples-constant",
+        "class:harmonic-reciprocal-CI-straddles-zero",
         "class:mismatched-lengths",
         "class:k>n",
         "class:k-in-{0,1}",
